@@ -34,7 +34,7 @@ RULE = ("(a) Hypothesis-generated batches of 1-9 tasks (two agent-id pools; task
         "edit of a nested list/dict), a dict shared by all "
         "agents of the batch, records built from the ctx the compute phase sees (turn, agent, clock, seed, slice, cfg), four "
         "logging entry points (incl. logmux.write_or_buffer), feature_guard, known/unknown/identity/non-identity streams, unicode, 600 B / 10 KB strings; "
-        "CI=true, unset and '1'; a compute phase that raises midway; approved deltas (incl. none), dialogue, initial "
+        "CI=true, unset and '1'; a compute phase that raises midway; approved deltas (none, distinct targets, the same target edited twice or more), dialogue, initial "
         "version_etag, snapshot cadence; staging byte limits from 1 upward (fixed ladder + limits derived from the record-size "
         "estimates of the case: e-1/e/e+1, midpoints, cumulative sums); non-trivial = >=2 tasks computed and >=1 "
         "back-pressure flush (counted on the real stager). (b) 2-4 agents with disjoint graphs through the real pipeline. "
@@ -78,6 +78,12 @@ _VAL = st.one_of(st.integers(-5, 5), st.sampled_from(["x", "héllo wörld", "", 
 _REC = st.dictionaries(st.sampled_from(KEYS), _VAL, min_size=1, max_size=4)
 _DELTA = st.fixed_dictionaries({"k": st.sampled_from(["node", "edge"]), "id": st.sampled_from(["n:a", "n:b", "e:a|r|b", "n:é"]),
                                 "v": st.sampled_from([0.1, -0.2, 0.3])})
+# approved lists: distinct targets, or the SAME target edited more than once (same node twice, same edge with different
+# values, interleaved with other targets) - a sequential turn hands the whole approved list to Apply, in order
+_DELTAS = st.one_of(st.lists(_DELTA, max_size=3, unique_by=lambda d: (d["k"], d["id"])),
+                    st.lists(_DELTA, min_size=2, max_size=5),
+                    st.tuples(_DELTA, st.lists(_DELTA, max_size=2), st.sampled_from([0.1, -0.2, 0.3, 0.7])).map(
+                        lambda t: [t[0]] + t[1] + [dict(t[0], v=t[2])]))
 _LADDER = [1, 2, 10, 40, 80, 150, 300, 1000, 10500, 25000, 10 ** 6, None]
 
 
@@ -147,7 +153,7 @@ def batches(draw):
     progs = []
     for _ in tasks:
         ops = draw(programs())
-        progs.append({"ops": ops, "deltas": draw(st.lists(_DELTA, max_size=3, unique_by=lambda d: (d["k"], d["id"]))),
+        progs.append({"ops": ops, "deltas": draw(_DELTAS),
                       "dialogue": draw(st.sampled_from(["ok", "", "dry: ünï", "a b c"])), "fail": None})
     if draw(st.sampled_from([False] * 7 + [True])):
         p = draw(st.sampled_from(progs))
@@ -538,6 +544,7 @@ def _labels(case, want, obs):
     lbs += ["tasks-not-in-id-order"] if ids != sorted(ids) else []
     lbs += ["cap-binds"] if (not _gate_off(case) and len(want) >= case["workers"] and len(want) < len(ids)) else []
     lbs += ["no-deltas"] if any(not progs[i]["deltas"] for i in want) else []
+    lbs += ["repeated-delta-target"] if any(len({(d["k"], d["id"]) for d in progs[i]["deltas"]}) < len(progs[i]["deltas"]) for i in want) else []
     lbs += ["silent-agent"] if (len(want) >= 2 and any(not any(op[0] in ("log", "ctx") for op in progs[i]["ops"]) for i in want)) else []
     lbs += [f"entry={e}" for e in sorted({op[3] for op in ops if op[0] == "log"} | {op[2] for op in ops if op[0] == "ctx"})]
     lbs += ["feature-guard"] if any(op[0] == "log" and op[4] is not None for op in ops) else []
